@@ -29,6 +29,7 @@ type cfg struct {
 	// published (concurrently with those reads if ResumeConcurrent, else after them), then it drains
 	ResumeRead, ResumeMore int
 	ResumeConcurrent       bool
+	CloseStalled           bool // the stalled consumer gives up: it closes its subscription while the stream is running
 	Buf                    int  // model value of EventBufsiz for this scenario (0: Bufsiz)
 	Refilter               bool // after the stream: Refilter a stalled direct filtered subscription so that it emits more events than its buffer holds
 	Name                   string
@@ -139,6 +140,9 @@ func (in *inst) run() {
 			n := n
 			if in.c.Stalled[n.Path] {
 				go func() {
+					if in.c.CloseStalled {
+						n.Close()
+					}
 					if in.c.ResumeRead > 0 {
 						<-in.phase1
 						for i := 0; i < in.c.ResumeRead; i++ {
@@ -340,7 +344,7 @@ func (in *inst) check(r *vs.Result) []string {
 		if min > in.c.buf() {
 			min = in.c.buf()
 		}
-		if len(got) < min {
+		if len(got) < min && !in.c.CloseStalled { // (a consumer that closed its subscription keeps what arrived before that)
 			msgs = append(msgs, fmt.Sprintf("stalled consumer lost events within its buffer | %s drained only %v of published %v (buffer %d)", n.Path, got, pub, in.c.buf()))
 		}
 		if in.c.ResumeRead > 0 && in.c.Paced && !in.c.ResumeConcurrent && n.Mon == nil {
@@ -520,6 +524,9 @@ func Property() runner.Property {
 				// a larger model buffer (4): overflow by one, read one, one more event must fit
 				out = append(out, scenario(cfg{Name: tr.name + "/slow", Tree: tr.tree, Stalled: st(tr.st), K: 5, Buf: 4, ResumeRead: 1, ResumeMore: 1, Paced: true, Mode: "S2", Bound: 1}))
 			}
+			// a stalled consumer that gives up (closes) while the stream is running: the others lose nothing
+			out = append(out, scenario(cfg{Name: "sub,sub,sub/stalled-one-closes", Tree: []hx.Spec{sp("sub", 0), sp("sub", 0), sp("sub", 0)}, Stalled: st("0:sub"), CloseStalled: true, K: 3, Mode: "S2", Bound: 2}))
+			out = append(out, scenario(cfg{Name: "sub,clone(sub)/stalled-one-closes", Tree: []hx.Spec{sp("sub", 0), sp("clone", 0, sp("sub", 0))}, Stalled: st("0:sub"), CloseStalled: true, K: 3, Mode: "S2", Bound: 2}))
 			fs := []hx.Spec{sp("fsub", 0), sp("sub", 0)}
 			for _, k := range []int{3, 5} {
 				out = append(out, scenario(cfg{Name: "fsub,sub", Tree: []hx.Spec{sp("fsub", 2), sp("sub", 0)}, Stalled: st("0:fsub"), K: k, Paced: true, Mode: "S2", Bound: 2}))
